@@ -104,6 +104,17 @@ func checkC20(c *core.Check) {
 			}
 			a.Paths = append(a.Paths, aspec.PathItem{Template: w.tmpl, Ops: []aspec.Op{w.op}})
 		}
+		// every other package is generated with CORS on and gets four plain paths that only ever see preflights
+		cors := (start/perPkg)%2 == 0
+		var preflights []string
+		if cors {
+			a.Flags.Cors = true
+			for i := 0; i < 4; i++ {
+				t := []aspec.Seg{{K: "lit", S: fmt.Sprintf("pf%d", i)}, {K: "lit", S: "x"}}
+				a.Paths = append(a.Paths, aspec.PathItem{Template: t, Ops: []aspec.Op{simpleOp([]string{"GET", "POST"}[i%2], t)}})
+				preflights = append(preflights, base.NF()+"/"+t[0].S+"/x")
+			}
+		}
 		jobs = append(jobs, a.Job(id))
 		for ri, rd := range rounds {
 			round++
@@ -114,10 +125,10 @@ func checkC20(c *core.Check) {
 			specPath := base.NF() + "/" + a.SpecName
 			specLen[round] = len(a.Render())
 			groups = append(groups, driver.Group{Pkg: id, Kind: "concurrent", Base: base.NF(),
-				API: driver.APIConfig{Mw: 2 + ri%2, NotFound: ri%4 < 2, Spec: true, Auth: map[string]bool{"A": true, "B": true}, Schemes: schemeInfos(*a)},
+				API: driver.APIConfig{Mw: 2 + ri%2, NotFound: ri%4 < 2, Spec: true, Cors: cors, Auth: map[string]bool{"A": true, "B": true}, Schemes: schemeInfos(*a)},
 				Conc: &driver.ConcurrentConfig{Goroutines: rd.g, Calls: 4, Procs: rd.procs, Seed: rng.Int63(), Round: round,
 					Creds:    map[string]string{"Authorization": "Bearer valid-A", "X-Key-B": "valid-B"},
-					RawPaths: []string{base.NF() + "/no/such/route", specPath, "/elsewhere", base.NF() + "/no-such", specPath + "/x"}}})
+					RawPaths: []string{base.NF() + "/no/such/route", specPath, "/elsewhere", base.NF() + "/no-such", specPath + "/x"}, Preflights: preflights}})
 			rawSpec[round] = specPath
 		}
 	}
@@ -204,6 +215,9 @@ func checkC20(c *core.Check) {
 			want, wantLen := 404, -1
 			if p, _ := e["path"].(string); p == rawSpec[rd] {
 				want, wantLen = 200, specLen[rd]
+			}
+			if pre, _ := e["pre"].(bool); pre {
+				want, wantLen = 204, -1 // a preflight of a declared path: the (stub) CORS handler answers
 			}
 			bl, _ := e["bodyLen"].(float64)
 			p, _ := e["panic"].(string)
